@@ -29,15 +29,23 @@ func Unmarshal(target any) Sink {
 func TapUnmarshal(ctx Ctx, target any, fn func(Ctx, Token, reflect.Value)) Sink {
 	unmarshal := func(ctx Ctx, target reflect.Value, cont Sink) Sink {
 		return func(token *Token) (Sink, error) {
-			if token.Invalid() {
-				return cont, nil
+			if token.Valid() {
+				fn(ctx, *token, target)
 			}
-			fn(ctx, *token, target)
+			// the end of the stream is not tapped, but inside a value it is
+			// still reported to the unmarshaller, which expects a token there
 			return UnmarshalValue(ctx, target, cont)(token)
 		}
 	}
 	ctx.Unmarshal = unmarshal
-	return unmarshal(ctx, reflect.ValueOf(target), nil)
+	top := unmarshal(ctx, reflect.ValueOf(target), nil)
+	return func(token *Token) (Sink, error) {
+		if token.Invalid() {
+			// an empty stream leaves the target untouched
+			return nil, nil
+		}
+		return top(token)
+	}
 }
 
 type UnmarshalFunc func(Ctx, Sink) Sink
